@@ -106,8 +106,45 @@ def evaluate(d, tier, checks):
     print(json.dumps(res, indent=1))
 
 
+def table(design=None):
+    """markdown table of seeded changes x checks from the eval.json files; with a path: rewrites the marked block there"""
+    rows = ["| change | what it does (one line) | own check | how it is reported | also reported by | tried, silent |", "|---|---|---|---|---|---|"]
+    sd = os.path.join(ROOT, "seeded")
+    for n in sorted(os.listdir(sd)):
+        d = os.path.join(sd, n)
+        if not os.path.exists(os.path.join(d, "meta.json")):
+            continue
+        meta = json.load(open(os.path.join(d, "meta.json")))
+        ev = json.load(open(os.path.join(d, "eval.json"))).get("quick", {}) if os.path.exists(os.path.join(d, "eval.json")) else {}
+        own = n.split("-")[0]
+        o = ev.get(own)
+        how = ""
+        if o:
+            w0 = (o.get("what") or [""])[0]
+            if isinstance(w0, list):
+                w0 = "; ".join(map(str, w0))
+            how = w0 or ("; ".join(l for l in o.get("lines", []) if l.startswith("VIOLATION"))[:80])
+            if any("no-failing-input-found" in l for l in o.get("lines", [])) and "skeleton" in how:
+                how = "proof obligation over the regenerated lock skeleton broken (no-failing-input-found): " + how.split("operations:")[-1].strip()
+        others = sorted(c for c, r in ev.items() if c != own and r.get("caught"))
+        silent = sorted(c for c, r in ev.items() if c != own and not r.get("caught"))
+        title = " ".join(str(meta.get("title", "")).split()).replace("|", "/")[:110]
+        rows.append("| %s | %s | %s | %s | %s | %s |" % (n, title, ("**caught**" if o and o.get("caught") else "MISSED" if o else "not run") + " (%s)" % own,
+                                                   " ".join(how.split()).replace("|", "/")[:160], ", ".join(others) or "-", ", ".join(silent) or "-"))
+    text = "\n".join(rows)
+    if design:
+        s = open(design).read()
+        a, b = s.index("<!-- SEEDED-TABLE-BEGIN -->"), s.index("<!-- SEEDED-TABLE-END -->")
+        s = s[:a] + "<!-- SEEDED-TABLE-BEGIN -->\n" + text + "\n" + s[b:]
+        open(design, "w").write(s)
+    else:
+        print(text)
+
+
 if __name__ == "__main__":
-    if sys.argv[1] == "confirm":
+    if sys.argv[1] == "table":
+        table(sys.argv[2] if len(sys.argv) > 2 else None)
+    elif sys.argv[1] == "confirm":
         confirm(sys.argv[2])
     else:
         tier, checks = "quick", None
